@@ -65,6 +65,9 @@ def _push_table_one(chk, F, rule, cfg, fn):
                 return IGNORE  # which OutputError: only selects the message
             if is_call(src, r'BTreeMap::entry$'):
                 return ('entry', {var})
+            if is_call(src, r'BTreeMap::(get_mut|get)$') and var in ('Some', 'None'):
+                # `match map.get_mut(&key) { Some(existing) => .., None => map.insert(key, ..) }`: the same two cases as the Entry API
+                return ('entry', {'Occupied' if var == 'Some' else 'Vacant'})
             return None
         inner, t = L.truth_of(d)
         if t is None:
@@ -96,8 +99,10 @@ def _push_table_one(chk, F, rule, cfg, fn):
     ], config=cfg)
     # provenance: key = pushed info.type_id; appended element = the pattern built from this builder; mode compared against the builder's
     for p in paths:
-        for e in p.calls(r'BTreeMap::entry$'):
+        for e in p.calls(r'BTreeMap::(entry|get_mut|get|insert)$'):
             key = strip(e.data[2][1])
+            if key[0] == 'ref' and len(key) > 3:
+                key = strip(key[3])
             ok = field_path(key) == (('param', 0, 2), ['type_id']) and field_path(e.data[2][0]) == (('param', 0, 1), ['fn_mockers'])
             chk.ob(rule, 'patterns are filed under the pushed method\'s own TypeId', ok, config=cfg, fn=fn, site='entry-key', what='map key', found=show(key), expected='info.type_id')
         for e in p.calls(r'Vec::push$'):
@@ -105,8 +110,8 @@ def _push_table_one(chk, F, rule, cfg, fn):
                 el = strip(e.data[2][1])
                 ok = is_call(el, r'MockAssembler::new_call_pattern$') and mentions(el, lambda x: x == ('param', 0, 3))
                 chk.ob(rule, 'the appended element is the pattern built from the pushed builder', ok, config=cfg, fn=fn, site='push-elem', what='appended element', found=show(el)[:200])
-        for e in p.calls(r'VacantEntry::insert$'):
-            fm = strip(e.data[2][1])
+        for e in p.calls(r'VacantEntry::insert$|BTreeMap::insert$'):
+            fm = strip(e.data[2][2] if e.data[1].endswith('BTreeMap::insert') else e.data[2][1])
             d = dict(fm[4]) if fm[0] == 'agg' else {}
             okm = strip(d.get('pattern_match_mode', ('unk', ''))) == ('field', ('param', 0, 3), 'pattern_match_mode') or field_path(d.get('pattern_match_mode', ('unk', ''))) == (('param', 0, 3), ['pattern_match_mode'])
             oki = strip(d.get('info', ('unk', ''))) == ('param', 0, 2)
